@@ -53,9 +53,15 @@ def one(pid, d, k):
         rc, out = sh("go test -vet=off -count=1 ./... 2>&1 | grep -v 'no test files'", s)
         res["suite_with_change"] = "passes" if "FAIL" not in out else "FAILS: " + out[-300:]
         ok = res["builds"] and rc0 == 0 and rc1 != 0 and res["suite_with_change"] == "passes"
+        # A change that was confirmed earlier (kept under seeded/) and whose demonstration now passes: a later repair of the
+        # repository removed the manifestation the demonstration uses.  It is still run against the checks and stays on
+        # record, marked as such.
+        kept = os.path.join(V, "seeded", "%s-%s%d" % (pid, TAG, k), "meta.json")
+        neutralised = (not ok) and res["builds"] and rc0 == 0 and rc1 == 0 and res["suite_with_change"] == "passes" and os.path.exists(kept)
         res["confirmed"] = ok
+        res["neutralised"] = neutralised
         det = {}
-        if ok:
+        if ok or neutralised:
             for cid in EXTRA.get(pid, [pid]):
                 e = dict(ENV, VERIF_REPO=s, VERIF_WORK=s + ".work", VERIF_OUT=s + ".out")
                 p = subprocess.run([os.path.join(V, "check"), cid, "--tier", os.environ.get("SEED_TIER", "quick")], env=e, capture_output=True, text=True)
@@ -64,6 +70,11 @@ def one(pid, d, k):
                 shutil.rmtree(s + ".work", ignore_errors=True); shutil.rmtree(s + ".out", ignore_errors=True)
         res["detection"] = det
         # keep it
+        if neutralised:
+            m0 = json.load(open(kept))
+            m0["checks_run"] = det
+            m0["confirmed_here"]["demo_with_change"] = "passes on the current tree: a later repair of the repository removed the manifestation the demonstration uses (it failed when the change was written)"
+            json.dump(m0, open(kept, "w"), indent=1)
         if ok:
             kd = os.path.join(V, "seeded", "%s-%s%d" % (pid, TAG, k))
             os.makedirs(kd, exist_ok=True)
